@@ -234,6 +234,52 @@ example : trimPrefix [109#8] [109#8, 47#8] = [109#8] := by decide
 example : trimPrefix [47#8, 109#8, 47#8] [109#8, 47#8] = [47#8, 109#8, 47#8] := by decide
 example : trimPrefix [109#8, 47#8] [] = [109#8, 47#8] := by decide
 
+/-! library functions the translator DEFINES since stage 9 -/
+
+/-- `strings.HasPrefix(s, p)`: `s` starts with `p` (every string starts with the empty string) -/
+def hasPrefix (s p : List (BitVec 8)) : Bool := p.isPrefixOf s
+
+example : hasPrefix [84#8, 82#8, 65#8] [84#8, 82#8] = true := by decide
+example : hasPrefix [84#8, 82#8] [84#8, 82#8] = true := by decide
+example : hasPrefix [84#8] [84#8, 82#8] = false := by decide
+example : hasPrefix [65#8, 84#8, 82#8] [84#8, 82#8] = false := by decide
+example : hasPrefix [84#8] [] = true := by decide
+example : hasPrefix [] [] = true := by decide
+example : hasPrefix [] [84#8] = false := by decide
+
+/-- `strings.HasSuffix(s, p)`: `s` ends with `p` (every string ends with the empty string) -/
+def hasSuffix (s p : List (BitVec 8)) : Bool := p.isSuffixOf s
+
+example : hasSuffix [65#8, 66#8, 57#8] [57#8] = true := by decide
+example : hasSuffix [65#8, 66#8, 57#8] [66#8, 57#8] = true := by decide
+example : hasSuffix [57#8] [57#8] = true := by decide
+example : hasSuffix [57#8, 65#8] [57#8] = false := by decide
+example : hasSuffix [57#8] [65#8, 57#8] = false := by decide
+example : hasSuffix [65#8] [] = true := by decide
+example : hasSuffix [] [57#8] = false := by decide
+
+/-- `strings.TrimSuffix(s, p)`: `s` without the trailing `p` if it ends with `p`, otherwise `s` -/
+def trimSuffix (s p : List (BitVec 8)) : List (BitVec 8) := if p.isSuffixOf s then s.take (s.length - p.length) else s
+
+example : trimSuffix [65#8, 66#8, 57#8] [57#8] = [65#8, 66#8] := by decide
+example : trimSuffix [65#8, 57#8, 57#8] [57#8] = [65#8, 57#8] := by decide
+example : trimSuffix [65#8, 66#8, 57#8] [66#8, 57#8] = [65#8] := by decide
+example : trimSuffix [57#8] [57#8] = [] := by decide
+example : trimSuffix [57#8, 65#8] [57#8] = [57#8, 65#8] := by decide
+example : trimSuffix [57#8] [65#8, 57#8] = [57#8] := by decide
+example : trimSuffix [65#8, 57#8] [] = [65#8, 57#8] := by decide
+example : trimSuffix [] [57#8] = [] := by decide
+
+/-- `bytes.Equal(a, b)`: the same length and the same bytes (a nil slice is the empty list: nil and empty are equal) -/
+def bytesEqual (a b : List (BitVec 8)) : Bool := a == b
+
+example : bytesEqual [1#8, 2#8] [1#8, 2#8] = true := by decide
+example : bytesEqual [1#8, 2#8] [1#8, 3#8] = false := by decide
+example : bytesEqual [1#8, 2#8] [1#8] = false := by decide
+example : bytesEqual [1#8] [1#8, 2#8] = false := by decide
+example : bytesEqual [] [] = true := by decide
+example : bytesEqual [] [0#8] = false := by decide
+
 /-- `strings.Split(s, sep)` for a separator `sep` that consists of the single byte `b`: the substrings between the
 occurrences of `b`, in order (one more than there are occurrences; `""` ↦ `[""]`, `"a/"` ↦ `["a", ""]`) -/
 def splitByte : List (BitVec 8) → BitVec 8 → List (List (BitVec 8))
